@@ -8,6 +8,7 @@ import (
 	"hash"
 	"html/template"
 	"net/url"
+	"sync"
 	"time"
 
 	"github.com/hashicorp/go-retryablehttp"
@@ -66,6 +67,10 @@ var (
 	_ PushedAuthorizeRequestHandlersProvider       = (*Config)(nil)
 	_ PushedAuthorizeRequestConfigProvider         = (*Config)(nil)
 )
+
+// defaultJWKSFetcherStrategy is the fetcher (and its cache) shared by all configurations that do not set one.
+// The getters of Config must not write to the Config on first use: a Config is read concurrently by every request.
+var defaultJWKSFetcherStrategy = sync.OnceValue(func() JWKSFetcherStrategy { return NewDefaultJWKSFetcherStrategy() })
 
 type Config struct {
 	// AccessTokenLifespan sets how long an access token is going to be valid. Defaults to one hour.
@@ -284,7 +289,7 @@ func (c *Config) GetHTTPClient(ctx context.Context) *retryablehttp.Client {
 
 func (c *Config) GetSecretsHasher(ctx context.Context) Hasher {
 	if c.ClientSecretsHasher == nil {
-		c.ClientSecretsHasher = &BCrypt{Config: c}
+		return &BCrypt{Config: c}
 	}
 	return c.ClientSecretsHasher
 }
@@ -368,7 +373,7 @@ func (c *Config) GetAllowedPrompts(_ context.Context) []string {
 // GetScopeStrategy returns the scope strategy to be used. Defaults to glob scope strategy.
 func (c *Config) GetScopeStrategy(_ context.Context) ScopeStrategy {
 	if c.ScopeStrategy == nil {
-		c.ScopeStrategy = WildcardScopeStrategy
+		return WildcardScopeStrategy
 	}
 	return c.ScopeStrategy
 }
@@ -376,7 +381,7 @@ func (c *Config) GetScopeStrategy(_ context.Context) ScopeStrategy {
 // GetAudienceStrategy returns the scope strategy to be used. Defaults to glob scope strategy.
 func (c *Config) GetAudienceStrategy(_ context.Context) AudienceMatchingStrategy {
 	if c.AudienceMatchingStrategy == nil {
-		c.AudienceMatchingStrategy = DefaultAudienceMatchingStrategy
+		return DefaultAudienceMatchingStrategy
 	}
 	return c.AudienceMatchingStrategy
 }
@@ -442,7 +447,7 @@ func (c *Config) GetBCryptCost(_ context.Context) int {
 // GetJWKSFetcherStrategy returns the JWKSFetcherStrategy.
 func (c *Config) GetJWKSFetcherStrategy(_ context.Context) JWKSFetcherStrategy {
 	if c.JWKSFetcherStrategy == nil {
-		c.JWKSFetcherStrategy = NewDefaultJWKSFetcherStrategy()
+		return defaultJWKSFetcherStrategy()
 	}
 	return c.JWKSFetcherStrategy
 }
